@@ -29,7 +29,7 @@ func genLog(rng *cq.Rng, tag string, m int) []logEntry {
 		}
 		if strings.HasPrefix(tag, "big") {
 			// large bulks: more than 1000 events (and hyper cache tiles) after a handful of entries
-			k = 200 + rng.Intn(60)
+			k = 240 + rng.Intn(120) // 4k+1 mutations: above 1000 for most of them
 		}
 		var evs []hashing.Digest
 		for j := 0; j < k; j++ {
